@@ -117,7 +117,7 @@ Proof. exact outer_sem_within_capacity. Qed.
 (* a successful queueing is really accepted by the core (its own capacity test cannot fail) *)
 Theorem C15_outer_queue_accepts : forall fc fp cap_n cap_s lim_n lim_s fixedq h0 osteps id b pd,
   let o := orun fc fp cap_n cap_s lim_n lim_s fixedq h0 osteps in
-  take_pend id (opend o) = Some (b, pd) -> stopped (ocore o) = false ->
+  take_pend id (opend o) = Some (b, pd) -> stopped (ocore o) = false -> quitf (ocore o) = false ->
   held_n (ocore (ostep_run fc fp cap_n cap_s lim_n lim_s fixedq o (OQueue id))) = held_n (ocore o) + batch_num b
   /\ osem_n (ostep_run fc fp cap_n cap_s lim_n lim_s fixedq o (OQueue id)) = osem_n o
   /\ osem_s (ostep_run fc fp cap_n cap_s lim_n lim_s fixedq o (OQueue id)) = osem_s o.
